@@ -25,7 +25,8 @@ CM = 'crates/anemo/src/network/connection_manager.rs'
 def peer_types(ctx):
     """PeerId, Direction, ConnectionOrigin (+ its two constants), verbatim"""
     t = ctx.item(PEER_ID, 'const PEER_ID_LENGTH')
-    t += ctx.item(PEER_ID, 'struct PeerId')
+    # `Structural`: the derived PartialEq of a plain data type is structural equality (needed for exec `==` / `!=` in Verus)
+    t += ctx.item(PEER_ID, 'struct PeerId', extra_derive=(['Structural'] if ctx.flavour == 'verus' else []))
     t += ctx.item(PEER_ID, 'enum Direction')
     t += ctx.item(PEER_ID, 'struct ConnectionOrigin')
     t += 'impl ConnectionOrigin {\n'
